@@ -153,7 +153,7 @@ def run(ctx):
                  hyp_fixed_len=0, mutations_checked=0, root_mutations=0)
     rng = ctx.rng(1)
     cases = []
-    n_target = ctx.n(60, 1000)
+    n_target = ctx.n(60, 600)
     while len(cases) < n_target:
         ts, mu, kw, fam = gen_case(rng)
         if ts.num_mutations == 0 or ts.num_edges == 0:
